@@ -29,7 +29,7 @@ BUDGET = {
     "quick": {"cases": 6400, "seconds": 90, "shards": 8},
     "thorough": {"cases": 120000, "seconds": 900, "shards": 16},
 }
-REQUIRED_OBS = ["snapshots_compared", "predictions_compared", "ext:txt", "ext:csv", "model:supervised", "model:semi", "model:unsup",
+REQUIRED_OBS = ["snapshots_compared", "dotted_path_cases", "predictions_compared", "ext:txt", "ext:csv", "model:supervised", "model:semi", "model:unsup",
                 "get_distances_checked", "int16_dataset_cases", "normalised_request_first", "train_set_is_whole_file_shuffled", "asymmetric_metric_cases", "same_path_rewrite_checked"]
 MIN_NONTRIVIAL = 60
 FIELDS = ("cost", "pred", "predicted_label", "status", "root", "cluster_label", "density", "relevant")
@@ -73,7 +73,7 @@ def generate(rng, tier, idx):
     k_hi = max(1, len(I_tr) - 1)
     max_k = int(rng.integers(1, min(k_hi, 5) + 1))
     return {"model": model, "metric": name, "X": X.tolist(), "I_tr": [int(i) for i in I_tr], "Y_tr": [int(v) for v in Ytr],
-            "n_unlabeled": int(n_u), "I_te": [int(i) for i in I_te], "ext": ext, "min_k": int(rng.integers(1, max_k + 1)), "max_k": max_k,
+            "n_unlabeled": int(n_u), "I_te": [int(i) for i in I_te], "ext": ext, "dotted_path": bool(rng.random() < 0.25), "min_k": int(rng.integers(1, max_k + 1)), "max_k": max_k,
             "gclass": gc, "norm_first": bool(rng.random() < 0.5), "int16": int16}
 
 
@@ -106,7 +106,12 @@ def check(case):
         return res.reject("max_k>n-1")
     tmp = tempfile.mkdtemp(prefix="c10_")
     try:
-        path = os.path.join(tmp, "dist." + case["ext"])
+        if case.get("dotted_path"):
+            os.makedirs(os.path.join(tmp, "fold.0"))
+            path = os.path.join(tmp, "fold.0", "dist.v2." + case["ext"])       # dots in directory and file names: the extension is the LAST suffix
+            res.see("dotted_path_cases")
+        else:
+            path = os.path.join(tmp, "dist." + case["ext"])
         w = safe_call(g.pre_compute_distance, X.copy(), path, name)
         if not w.ok:
             res.violate("file", f"C10/exception/pre_compute_distance/{type(w.exc).__name__}", f"pre_compute_distance raised at {w.where}")
